@@ -469,7 +469,11 @@ func c16GenTok(t *rapid.T) c16Tok {
 	case k < 72:
 		return c16Tok{Kind: "flip", Seg: c16U(t, "seg", 3), Pos: c16U(t, "pos", 400), Bit: c16U(t, "bit", 8)}
 	case k < 79:
-		return c16Tok{Kind: "b64", Seg: c16U(t, "seg", 3), Pos: c16U(t, "pos", 400) - 3,
+		pos := c16U(t, "pos", 400) - 3
+		if c16U(t, "lastchar", 4) == 3 {
+			pos = -1 // the last character of a segment (carries unused bits)
+		}
+		return c16Tok{Kind: "b64", Seg: c16U(t, "seg", 3), Pos: pos,
 			Alt: c16Pick(t, "alt", []string{"A", "B", "Q", "g", "w", "_", "-", "0", "=", "+", "/", ".", " ", "%"})}
 	case k < 81:
 		return c16Tok{Kind: "trunc", Pos: c16U(t, "n", 8)}
@@ -714,7 +718,7 @@ func TestVerif_C16_request(t *testing.T) {
 		return
 	}
 
-	verifkit.RapidSetup(3000, 30000)
+	verifkit.RapidSetup(4000, 40000)
 	rapid.Check(t, func(rt *rapid.T) {
 		c := c16GenCase().Draw(rt, "case")
 		c, excluded := c16ApplyKnown(env, c)
@@ -771,4 +775,7 @@ func TestVerif_C16_request(t *testing.T) {
 		}
 	})
 	col.Extra("fixture_rebuilds", env.builds)
+	if len(c16FixSkipped) > 0 {
+		col.Note(fmt.Sprintf("fixture index names refused by the engine (treated as non-existent): %v", c16FixSkipped))
+	}
 }
